@@ -3,8 +3,13 @@ package restful
 import "net/http"
 
 // H_C10: a panic anywhere in the chain becomes one 500 and leaves the container usable.
-// nc/ns/nr: filters per level; recov: 1 = recovery on; enc: 1 = container encoding on; entry: 0 Dispatch, 1 ServeHTTP
+// nc/ns/nr: filters per level; recov: 1 = recovery on; enc: 1 = container encoding on; entry: 0 Dispatch, 1 ServeHTTP,
+// 2 Dispatch of a request that fails routing (only the container filters run, around the error response)
 func H_C10(nc, ns, nr, recov, enc, entry int) {
+	failRouting := entry == 2
+	if failRouting {
+		entry = 0
+	}
 	led := vNewLedger(vProvider(0))
 	old := currentCompressorProvider
 	SetCompressorProvider(led)
@@ -25,18 +30,26 @@ func H_C10(nc, ns, nr, recov, enc, entry int) {
 	for _, f := range k.filts {
 		f.replace = false // a replaced pair writes to another recorder (C06's concern); here the client is one recorder
 	}
-	// one panic position per run: before/after each filter passes on, handler before/after writing, or none
-	pos := nondetChoice("panicpos", 2*nf+3)
+	// one panic position per run: before/after each filter passes on, handler before/after writing, none,
+	// or inside a route selection condition
+	pos := nondetChoice("panicpos", 2*nf+4)
 	k.panicAt = pos
 	if pos == 2*nf+2 {
 		k.panicAt = -1
+	}
+	if pos == 2*nf+3 {
+		k.panicAt = -5
+	}
+	path := "/t/a"
+	if failRouting {
+		path = "/t/nomatch"
 	}
 	ae := ""
 	if enc == 1 {
 		ae = "gzip"
 	}
 	rec := vNewRec()
-	req := vHdrReq("GET", "/t/a", map[string]string{"Accept-Encoding": ae})
+	req := vHdrReq("GET", path, map[string]string{"Accept-Encoding": ae})
 	var escaped interface{}
 	func() {
 		defer func() {
@@ -66,6 +79,16 @@ func H_C10(nc, ns, nr, recov, enc, entry int) {
 			verifAssert(recVal == "boom", "C10: the recover handler did not receive the panic value")
 			// panic before the handler wrote anything: the client sees the recover handler's status and body
 			wroteBefore := pos == 2*nf+1 || (pos%2 == 1 && pos < 2*nf && k.log[len(k.log)-1] == "H")
+			if failRouting {
+				// the error response was written before control came back to filter pos/2 iff every
+				// container filter behind it passed control on
+				wroteBefore = pos%2 == 1 && pos < 2*nc
+				for j := pos/2 + 1; j < nc && wroteBefore; j++ {
+					if k.filts[j].stop {
+						wroteBefore = false
+					}
+				}
+			}
 			ce := vHdr1(rec, "Content-Encoding")
 			payload, ok := verifDecodeBody(rec.chunks, ce)
 			verifAssert(ok, "C10: the response body after a recovered panic is not complete/decodable")
@@ -75,7 +98,11 @@ func H_C10(nc, ns, nr, recov, enc, entry int) {
 				verifAssert(ok && string(payload) == "rec", "C10: the recover handler's body did not reach the client complete")
 			} else {
 				verifCover("partial-output-before")
-				verifAssert(ok && string(payload) == "okrec", "C10: output written before the panic plus the recover handler's output is not what the client received")
+				want := "okrec"
+				if failRouting {
+					want = "404: Page Not Foundrec"
+				}
+				verifAssert(ok && string(payload) == want, "C10: output written before the panic plus the recover handler's output is not what the client received")
 			}
 		} else {
 			verifCover("recovery-off")
